@@ -145,7 +145,7 @@ def wrap_in_container(pkg: dict, container: str) -> dict:
 
 
 def make_cases(seed: int, tier: str, n_cases: int | None = None) -> list[dict]:
-    n = n_cases or (32 if tier == "quick" else 1500)
+    n = n_cases or (32 if tier == "quick" else 1000)
     cases = []
     for idx in range(n):
         cs = H(seed, PROP, tier, idx)
